@@ -436,11 +436,20 @@ func filterCase(c *kit.Case, p params) {
 	if left > 0 {
 		r.Count("filter_flushes_leaving_some_dirty_lines", 1)
 	}
-	// the written-back lines are current in memory; the others need not be
+	// the written-back lines are current in memory; the others need not be.
+	// Bytes of writes that are still unacknowledged (stuck in the drained cache's Top port) may hold either value.
+	unacked := map[uint64]bool{}
+	for _, q := range d.State.Inflight {
+		if !q.IsRead {
+			for i := uint64(0); i < q.Len; i++ {
+				unacked[uint64(q.PID)<<48|(q.Addr+i)] = true
+			}
+		}
+	}
 	for k := range want {
 		for off := uint64(0); off < line; off++ {
 			addr := k.Tag + off
-			if _, written := d.State.Ref[uint64(k.PID)<<48|addr]; !written {
+			if _, written := d.State.Ref[uint64(k.PID)<<48|addr]; !written || unacked[uint64(k.PID)<<48|addr] {
 				continue
 			}
 			gotB, _ := s.Storages[0].Read(addr, 1)
